@@ -100,6 +100,9 @@ theorem stddev_spec (p : Path) (vs : List Val) (h : Val.nan ∉ vs) :
     simp only [wState, hl, if_false, F.num_div]
     rw [wState_variance _ h2]
 
+/-- the variance whose square root `stddev` returns is never negative -/
+theorem stddev_variance_nonneg (l : List Rat) : 0 ≤ sampleVar l := sampleVar_nonneg l
+
 /-- `stddev` does not filter NaN: with a NaN among at least two numeric values the result is NaN
 (with fewer than two numeric values it is `null`), on every path. -/
 theorem stddev_nan (p : Path) (vs : List Val) (h : Val.nan ∈ vs) :
